@@ -424,6 +424,12 @@ def register(R):
                                                                 and len([e for e in jn if e.recv is not c.oldf('_submitter')]) >= 1),
             'monitor_manager_shut_down_last': B(len(ms) == 1 and index_of(tr, ms[0]) == max(index_of(tr, e) for e in tr if e.kind == 'ext')),
             'marked_not_started': b2z(c.newf('_started')) == B(False),
+            # the downloader can be started again (`_started` is reset): the workers of this cycle must not stay registered, or the
+            # next shutdown queues one signal per dead worker too and the left-over signals stop the workers of the cycle after
+            # that before they run a job ("shutdown waits for all downloads")
+            'no_worker_of_the_finished_cycle_stays_registered': to_int_term(c.new.obj(c.newf('_workers')).meta['len']) == 0
+            if isinstance(c.newf('_workers'), Ref) and c.new.obj(c.newf('_workers')).kind == 'slist' else
+            B(isinstance(c.newf('_workers'), Ref) and c.new.obj(c.newf('_workers')).kind == 'list' and len(c.new.obj(c.newf('_workers')).items) == 0),
         }
 
     R.contract(f'{PPD}._shutdown', props=['C19'], params={}, checks=ppd_shutdown_checks, self_type=ObjT(PPD, shared=True), requires_held=('_start_lock',),
